@@ -105,3 +105,15 @@ Fixpoint reach (g : list (string * string)) (fuel : nat) (x : string) : list str
 
 Definition acyclic (g : list (string * string)) : bool :=
   forallb (fun e => negb (memS (fst e) (reach g (S (List.length g)) (fst e)))) g.
+
+(* the same by a ranking certificate, which is what the no-deadlock theorem uses: every edge
+   goes strictly down in [height] *)
+Fixpoint height (g : list (string * string)) (fuel : nat) (x : string) : nat :=
+  match fuel with
+  | O => O
+  | S k => S (fold_right Nat.max O (map (height g k) (succs g x)))
+  end.
+
+Definition ranked (g : list (string * string)) : bool :=
+  let n := S (List.length g) in
+  forallb (fun e => Nat.ltb (height g n (snd e)) (height g n (fst e))) g.
